@@ -61,6 +61,24 @@ def sites():
             # statement deletion: storage writes, event emissions, ttl extensions, cross-contract calls whose result is unused
             if re.match(r'\s*(event::\w+\(|extend_\w+\(|env\.storage\(\)|[\w.]+\.(set|remove|extend_ttl)\()', code) and code.rstrip().endswith(';') and not s.startswith('let '):
                 res.append(dict(file=rel, line=i, kind='delete-effect', old=[l], new=[re.match(r'\s*', l).group(0) + '// (deleted)']))
+            # integer literal off by one (not in attribute / const-generic positions)
+            for m in re.finditer(r'(?<![\w.])(\d+)(?![\w.])', code):
+                v = int(m.group(1))
+                if v > 100000 or 'repr(' in code or '::<' in code:
+                    continue
+                for nv in ([v + 1] if v == 0 else [v - 1, v + 1]):
+                    new = code[:m.start()] + str(nv) + code[m.end():]
+                    res.append(dict(file=rel, line=i, kind='int-literal', old=[l], new=[new]))
+            # values of two adjacent `field: value,` lines of a struct literal exchanged (only same-typed swaps compile)
+            m1 = re.match(r'(\s*)(\w+): (.+),\s*$', code)
+            if m1 and i + 1 < len(src):
+                m2 = re.match(r'(\s*)(\w+): (.+),\s*$', src[i + 1].split('//')[0])
+                if m2 and m1.group(1) == m2.group(1) and m1.group(3) != m2.group(3) and not m1.group(3).strip().startswith(('fn', '&str')):
+                    res.append(dict(file=rel, line=i, kind='swap-fields', old=[l, src[i + 1]],
+                                    new=[f"{m1.group(1)}{m1.group(2)}: {m2.group(3)},", f"{m2.group(1)}{m2.group(2)}: {m1.group(3)},"]))
+            # `unwrap_or(x)` defaults, Some/None
+            for m in re.finditer(r'unwrap_or_default\(\)', code):
+                pass
             # adjacent-argument swap in single-line calls (only type-correct swaps compile)
             m = re.search(r'(\w+)\(([^()]*,[^()]*)\)', code)
             if m and not s.startswith('fn ') and not s.startswith('pub fn ') and 'fn ' not in code:
